@@ -62,6 +62,7 @@ fn dynscen<S: scen::Scenario + Clone + 'static>(s: S) -> DynScen {
 fn special(engine: &str, prop: u8) -> Vec<DynScen> {
     match (engine, prop) {
         ("idx", 5) => (0..4).map(|c| dynscen(idx::IdxScen { container: c, prop: 5 })).collect(),
+        ("idx", 16) => (0..4).map(|c| dynscen(idx::IdxScen { container: c, prop: 16 })).collect(),
         ("idx", 19) => [1u8, 2, 4, 5].iter().map(|c| dynscen(idx::IdxScen { container: *c, prop: 19 })).collect(),
         ("allocs", 17) => table::entries()
             .iter()
